@@ -156,12 +156,6 @@ impl Session {
                 }
             }
 
-            // If ignore_mac is false, we're dealing with Class A downlink and
-            // therefore can clear uplinks which need to be retained for acknowledgment
-            if !ignore_mac {
-                self.uplink.clear_mac_commands(false);
-            }
-
             #[cfg(feature = "certification")]
             if let Some(port) = encrypted_data.f_port()
                 && port > 0
@@ -181,6 +175,13 @@ impl Session {
             let nwk_crypto = DefaultCrypto::new(self.nwkskey.inner());
             let app_crypto = DefaultCrypto::new(self.appskey.inner());
             if encrypted_data.validate_mic(&nwk_crypto, fcnt) {
+                // If ignore_mac is false, we're dealing with Class A downlink and
+                // therefore can clear uplinks which need to be retained for acknowledgment.
+                // Only an authenticated frame may do that: anything else must leave the
+                // pending answers alone.
+                if !ignore_mac {
+                    self.uplink.clear_mac_commands(false);
+                }
                 self.fcnt_down = Some(fcnt);
                 // Any accepted downlink confirms connectivity for ADR.
                 self.adr_ack_cnt = 0;
